@@ -563,31 +563,11 @@ func c04c(c *Ctx, r *Report) {
 	// (1) directive word -> Kind
 	word2kind := map[string]string{}
 	if f := c.need(r, clause, "Parser", "", "DirectiveOtherState"); f != nil {
-		info := f.Pkg.TypesInfo
-		ast.Inspect(f.Decl.Body, func(n ast.Node) bool {
-			is, ok := n.(*ast.IfStmt)
-			if !ok {
-				return true
+		for _, a := range directiveArms(f) {
+			if a.kind != "" {
+				word2kind[a.word] = a.kind
 			}
-			call, ok := unparen(is.Cond).(*ast.CallExpr)
-			if !ok || !strings.HasSuffix(shortFuncName(callee(info, call)), ".acceptOnlyAlphaWord") || len(call.Args) != 1 {
-				return true
-			}
-			w, ok := constString(info, call.Args[0])
-			if !ok {
-				return true
-			}
-			for _, s := range is.Body.List {
-				if es, ok := s.(*ast.ExprStmt); ok {
-					if ec, ok := es.X.(*ast.CallExpr); ok && strings.HasSuffix(shortFuncName(callee(info, ec)), ".emit") && len(ec.Args) == 1 {
-						if k, ok := constString(info, ec.Args[0]); ok {
-							word2kind[w] = k
-						}
-					}
-				}
-			}
-			return true
-		})
+		}
 	}
 	// (2) Kind -> PrecAssocType in parsePrecList
 	kind2assoc := map[string]int64{}
@@ -1047,6 +1027,14 @@ func c04cActionFields(c *Ctx, r *Report, f *FuncRef) {
 					okAll = false
 					detail += fmt.Sprintf("%s sources %v; ", fld, srcs)
 				}
+				// the default is re-established for every reduce action: the statement giving the default is a
+				// top-level statement of a block that encloses the literal, comes before it, and lies inside the
+				// loop over the state's transitions — otherwise a rule without precedence inherits the level of
+				// an earlier reduction of the same state (loop-carried value)
+				if !defaultPerIteration(info, f, o, cl) {
+					okAll = false
+					detail += fld + ": the (−1, NONE) default is not re-assigned on the way to every REDUCE action inside the transition loop — the value of an earlier reduction can leak into a rule without precedence; "
+				}
 			}
 			r.Check(okAll, clause, "R1 PROVENANCE", f.Name+"/REDUCE-action-precedence", c.pos(cl.Pos()),
 				"REDUCE action: Prec/PrecType come from the reduced rule's PrecSymbol, (−1, NONE) when it has none",
@@ -1076,4 +1064,72 @@ func c04d(c *Ctx, r *Report) {
 	r.Check(res.errorLeavesPrefill && res.prefillIsErrorCode, clause, "R4 DECISION-TABLE", f.Name+"/ERROR-keeps-prefill", c.pos(res.pos),
 		"cells are pre-filled with GenErrorCode() over the whole row; an action of type ERROR stores nothing, so %nonassoc yields a syntax error",
 		fmt.Sprintf("an ERROR action does not leave the error code in its cell (prefill is error code: %v, ERROR arm stores nothing: %v)", res.prefillIsErrorCode, res.errorLeavesPrefill))
+}
+
+// defaultPerIteration: some constant assignment / definition of local o is a top-level statement of a block enclosing
+// `at`, positioned before it, and that block lies inside the outermost loop enclosing `at`; every assignment of o from
+// a non-constant comes after it.
+func defaultPerIteration(info *types.Info, f *FuncRef, o types.Object, at ast.Node) bool {
+	pm := parentMap(f.Decl.Body)
+	// enclosing blocks of `at`, innermost first, up to and including the body of the outermost enclosing loop
+	var blocks []*ast.BlockStmt
+	var outer ast.Node
+	for cur := ast.Node(at); cur != nil; cur = pm[cur] {
+		switch x := cur.(type) {
+		case *ast.RangeStmt, *ast.ForStmt:
+			outer = x
+		}
+	}
+	if outer == nil {
+		return false
+	}
+	for cur := ast.Node(at); cur != nil && cur != outer; cur = pm[cur] {
+		if b, ok := cur.(*ast.BlockStmt); ok {
+			blocks = append(blocks, b)
+		}
+	}
+	var dflt ast.Stmt
+	for _, b := range blocks {
+		for _, st := range b.List {
+			if st.Pos() >= at.Pos() {
+				break
+			}
+			switch x := st.(type) {
+			case *ast.AssignStmt:
+				if len(x.Lhs) == len(x.Rhs) {
+					for i, l := range x.Lhs {
+						if identObj(info, l) == o && constOf(info, x.Rhs[i]) != nil {
+							dflt = st
+						}
+					}
+				}
+			case *ast.DeclStmt:
+				ast.Inspect(x, func(m ast.Node) bool {
+					if vs, ok := m.(*ast.ValueSpec); ok {
+						for i, nm := range vs.Names {
+							if info.Defs[nm] == o && i < len(vs.Values) && constOf(info, vs.Values[i]) != nil {
+								dflt = st
+							}
+						}
+					}
+					return true
+				})
+			}
+		}
+	}
+	if dflt == nil {
+		return false
+	}
+	ok := true
+	ast.Inspect(f.Decl.Body, func(m ast.Node) bool {
+		if as, isA := m.(*ast.AssignStmt); isA && len(as.Lhs) == len(as.Rhs) {
+			for i, l := range as.Lhs {
+				if identObj(info, l) == o && constOf(info, as.Rhs[i]) == nil && (as.Pos() < dflt.Pos() || as.Pos() > at.Pos()) {
+					ok = false
+				}
+			}
+		}
+		return true
+	})
+	return ok
 }
